@@ -15,7 +15,7 @@
 (* StripBoth = TRUE is the pinned patternWithoutTrailingGlob (strips "/**"  *)
 (* and then "/*"): the sanity configuration, TLC must reject it.            *)
 (***************************************************************************)
-EXTENDS Integers, Sequences, FiniteSets, TLC
+EXTENDS Integers, Sequences, FiniteSets, TLC, Json, IOUtils
 CONSTANTS MaxPatLen, MaxList, Mode, StripBoth   \* Mode = "inc" or "exc"
 A == "a"  AB == "ab"
 Names == {A, AB}
@@ -116,4 +116,20 @@ PruningUnobservable == RunNaive(l) = RunRef(l)
 OnlyMatcherDiverges == RunAlg(l) # RunRef(l) => RunNaive(l) = RunRef(l)
 \* without negations the incremental matcher cannot diverge either
 NoNegNoDivergence == (\A k \in DOMAIN l : ~l[k].neg) => RunAlg(l) = RunRef(l)
+
+\* ---- case generation for the walk / copy drivers (configurations _gen*): one file per pattern list with what the
+\* ALGORITHM model reports (incremental matcher, pruning, lazy ancestors - including where it departs from the reference)
+\* and the reference; the drivers run the real filterFS.Walk / copy.Copy on the same tree and lists, and the monitors
+\* compare the real output with the algorithm model's (clauses MODEL.*)
+RECURSIVE JoinWith(_, _)
+JoinWith(sq, sep) == IF sq = <<>> THEN "" ELSE IF Len(sq) = 1 THEN sq[1] ELSE sq[1] \o sep \o JoinWith(Tail(sq), sep)
+PatText(pt) == (IF pt.neg THEN "!" ELSE "") \o JoinWith(pt.segs, "/")
+SegCode(sg) == CASE sg = STAR -> "S" [] sg = DSTAR -> "D" [] sg = PSTAR -> "P" [] OTHER -> sg
+PatCode(pt) == (IF pt.neg THEN "N" ELSE "") \o JoinWith([k \in DOMAIN pt.segs |-> SegCode(pt.segs[k])], "_")
+ListCode(ll) == JoinWith([k \in DOMAIN ll |-> PatCode(ll[k])], "+")
+PathTexts(sq) == [k \in DOMAIN sq |-> JoinWith(sq[k], "/")]
+GenCases ==
+  ndJsonSerialize(IOEnv.VERIF_GEN_DIR \o "/filtercase_" \o Mode \o "_" \o ListCode(l) \o ".ndjson",
+     <<[name |-> Mode \o "_" \o ListCode(l), mode |-> Mode, pats |-> [k \in DOMAIN l |-> PatText(l[k])],
+        alg |-> PathTexts(RunAlg(l)), ref |-> PathTexts(RunRef(l))]>>)
 =============================================================================
